@@ -17,7 +17,14 @@ impl Display for Number {
         if self.radix == 16 {
             write!(f, "0x{:X}", self.value.0 as u64)?;
         } else {
-            write!(f, "{:.*}", self.precision, self.value.0)?;
+            // The formatting machinery accepts precisions up to `u16::MAX` only (and panics
+            // beyond). Past that many places every digit of an `f64` is a zero anyway.
+            let shown = self.precision.min(u16::MAX as usize);
+            write!(f, "{:.*}", shown, self.value.0)?;
+
+            for _ in shown..self.precision {
+                write!(f, "0")?;
+            }
         }
 
         if let Some(suffix) = self.suffix {
